@@ -5,6 +5,7 @@ import ScrapliProps.C01Driver
 import ScrapliProps.C01PlatformXR
 import ScrapliProps.C01PlatformEOS
 import ScrapliProps.C01PlatformNX
+import ScrapliProps.C01PlatformJunos
 /-
   C01 — a command's response is exactly what the device printed for that command.
   Property theorems only (helper lemmas and the definitions `Quiet`, `NoEarly`, `PromptOK`,
@@ -580,6 +581,22 @@ theorem nxos_session_exact (cfg : Cfg) (out : Bytes → Bytes) {p t : Bytes} (hp
       w'.writes = w.writes ++ (inputs.map (fun i => [i, cfg.ret])).flatten ∧
       (∀ x ∈ w'.avail, isHws x = true) ∧ w'.held = [] :=
   session_exact (nxos_fits cfg out hp ht hS hstrict hret hwin) stripPrompt inputs hg w hw hheld
+
+/-- **and for the Juniper Junos class pattern** (terminators `> # % $`, shell and root-shell alternatives, the optional
+    banner line a line of its own): every operational / configuration prompt line the pattern admits (`junos_fits`),
+    `junosP` compared with CPython on every run -/
+theorem junos_session_exact (cfg : Cfg) (out : Bytes → Bytes) {p t : Bytes} (hp : JunosPrompt p) (ht : t = [] ∨ t = [32])
+    (hS : ∀ x, cfg.prompt.search x = (splitNL x).any junosP)
+    (hstrict : cfg.rough = false) (hret : IsRet cfg.ret) (hwin : (p ++ t).length < cfg.depth)
+    (stripPrompt : Bool) (inputs : List Bytes)
+    (hg : ∀ i ∈ inputs, GoodCmd junosP { out := out, prompt := p, trail := t } i)
+    (w : Wire) (hw : ∀ x ∈ w.avail, isHws x = true) (hheld : w.held = []) :
+    ∃ rs w', runCmds cfg (LineDev.onWrite { out := out, prompt := p, trail := t }) stripPrompt inputs (w, []) =
+        some (rs, (w', [])) ∧
+      rs.map (·.2) = inputs.map (expected cfg { out := out, prompt := p, trail := t } stripPrompt) ∧
+      w'.writes = w.writes ++ (inputs.map (fun i => [i, cfg.ret])).flatten ∧
+      (∀ x ∈ w'.avail, isHws x = true) ∧ w'.held = [] :=
+  session_exact (junos_fits cfg out hp ht hS hstrict hret hwin) stripPrompt inputs hg w hw hheld
 
 /-- the defaults regenerated from the source lie inside the scope of the session theorems
     (return character `\n`, strict input matching, a positive search depth) -/
